@@ -246,7 +246,7 @@ fn one_program(rng: &mut Rng, mode: &str) -> Value {
     }).collect();
     let kb = KnowledgeBase::new("f");
     let mut rules_json = vec![];
-    let groups = ["MAIN", "MAIN", "MAIN", "G1", "G2"];
+    let groups = ["MAIN", "MAIN", "MAIN", "G1", "G1.sub"];
     for r in 0..nrules {
         let name = format!("r{}", r + 1);
         let likely = mode != "c01" && !numeric_now.is_empty() && rng.chance(2, 3);
@@ -273,7 +273,7 @@ fn one_program(rng: &mut Rng, mode: &str) -> Value {
         }
         for _ in 0..rng.below(3) {
             if mode != "c01" && rng.chance(1, 8) {
-                let g = ["MAIN", "G1", "G2"][rng.below(3)];
+                let g = ["MAIN", "G1", "G1.sub"][rng.below(3)];
                 acts.push(ActionType::ActivateAgendaGroup { group: g.to_string() });
                 aj.push(json!(["focus", g]));
                 continue;
@@ -363,7 +363,7 @@ fn one_program(rng: &mut Rng, mode: &str) -> Value {
                 calls.push(c);
             }
             5 | 6 => {
-                let g = ["MAIN", "G1", "G2"][rng.below(3)];
+                let g = ["MAIN", "G1", "G1.sub"][rng.below(3)];
                 engine.set_agenda_focus(g);
                 let mut c = dflt("focus");
                 c["g"] = json!(g);
